@@ -236,11 +236,24 @@ class Effect:
         """Atoms of the tests of conditional expressions inside the
         arguments (what decides *which* value is passed)."""
         out = set()
-        for a in list(self.call.args) + [k.value for k in
-                                         self.call.keywords]:
+        F = self.facts
+        todo = list(self.call.args) + [k.value for k in self.call.keywords]
+        seen = set()
+        while todo:
+            a = todo.pop()
             for n in ast.walk(a):
                 if isinstance(n, ast.IfExp):
-                    out |= self.facts.flow.atoms(n.test, self.fn, self.bind)
+                    out |= F.flow.atoms(n.test, self.fn, self.bind)
+                elif isinstance(n, ast.Name) and isinstance(
+                        n.ctx, ast.Load) and n.id not in seen:
+                    # a local holding the value: the tests inside its
+                    # definitions and the guards selecting between them
+                    seen.add(n.id)
+                    ds = F._def_sites(n.id, self.fn)
+                    for d in ds:
+                        todo.append(d.value)
+                        if len(ds) > 1:
+                            out |= F.control(d, self.fn, self.bind)
         return out
 
     def kw_const(self, name, default=None):
@@ -335,13 +348,40 @@ class Facts:
                       frozenset(), ())
         return out
 
+    def spec_binds(self, node, fn, bind):
+        """The bindings under which `node` is analysed: [bind], or -- when
+        the node sits in a `for` loop over a constant table (`for field, key
+        in (('Requires', 'requires'), ...)`) -- one binding per row with the
+        loop variables fixed to that row's constants (the loop unrolled)."""
+        n = node
+        while n is not None and n is not fn.node:
+            p = getattr(n, '_parent', None)
+            if isinstance(p, ast.For) and any(n is x for x in p.body):
+                memo = self.__dict__.setdefault('_rows_memo', {})
+                key = (id(p), self.flow._bkey(bind))
+                if key not in memo:
+                    memo[key] = self.flow.loop_rows(p, fn, bind)
+                rows = memo[key]
+                if rows:
+                    out = []
+                    for row in rows:
+                        b = dict(bind or {})
+                        for k, v in row.items():
+                            b['=' + k] = {'const:' + repr(v)}
+                        out.append(b)
+                    return out
+            n = p
+        return [bind]
+
     def _effects(self, fn, bind, pred, depth, chain, stack, out, outer,
                  owith, path):
+        bind0 = bind
         if fn.fq in stack:
             return
         stack = stack | {fn.fq}
         nested_called = set()
-        for c in Q.calls(fn.node, nested=False):
+        for c0 in Q.calls(fn.node, nested=False):
+          for c, bind in [(c0, b_) for b_ in self.spec_binds(c0, fn, bind0)]:
             eff = Effect(c, fn, bind, chain, self, outer, owith, path)
             if pred(eff):
                 out.append(eff)
@@ -374,6 +414,7 @@ class Facts:
                                 outer | frozenset(self.control(c, fn, bind)),
                                 owith | frozenset(self.withs(c, fn, bind)),
                                 path + ((fn, c),))
+        bind = bind0
         # nested functions never called directly (callbacks): unbound
         for n in walk_no_nested(fn.node):
             if isinstance(n, (ast.FunctionDef, ast.AsyncFunctionDef)) and \
@@ -413,6 +454,32 @@ class Facts:
                     if callee is not None:
                         go(callee, d - 1)
         go(fn, depth)
+        return out
+
+    def frames(self, fn, depth=2):
+        """(function, binding) of fn and of every repository helper it
+        calls (resolved callees up to `depth` calls away, parameters bound
+        to the atoms of the arguments at the call site): where a rule looks
+        at the statements of "fn and its helpers"."""
+        out, seen = [], set()
+
+        def go(f, b, d, stack):
+            key = (f.fq, self.flow._bkey(b))
+            if key in seen or f.fq in stack:
+                return
+            seen.add(key)
+            out.append((f, b))
+            for n in ast.walk(f.node):
+                if isinstance(n, (ast.FunctionDef, ast.AsyncFunctionDef)) \
+                        and n is not f.node and getattr(n, '_func', None):
+                    go(n._func, None, d, stack | {f.fq})
+            if d > 0:
+                for c in Q.calls(f.node, nested=False):
+                    callee = self.flow.resolve_call(c, f)
+                    if callee is not None:
+                        cb = self.flow._bind_args(c, callee, f, b, 0, set())
+                        go(callee, cb, d - 1, stack | {f.fq})
+        go(fn, None, depth, frozenset())
         return out
 
     def reaching_defs(self, fn, name_node, with_stmt=False):
@@ -571,7 +638,15 @@ class Facts:
         the assignments to those flags (transitively)."""
         _seen = _seen if _seen is not None else set()
         out = set()
-        for t in self.guards(node, fn):
+        tests = list(self.guards(node, fn))
+        if _depth == 0:
+            # control dependence through early exits (`for x in xs: if p(x):
+            # return` before the node): the loop and the test decide too
+            have = {id(t) for t in tests}
+            for t in self.cfg_tests(node, fn):
+                if id(t) not in have:
+                    tests.append(t)
+        for t in tests:
             out |= self.flow.atoms(t, fn, bind)
             if _depth < 1:
                 for c in ast.walk(t):
@@ -591,6 +666,21 @@ class Facts:
                         for d in self._def_sites(nm.id, fn):
                             out |= self.control(d, fn, bind, _depth + 1,
                                                 _seen)
+        return out
+
+    def cfg_tests(self, node, fn):
+        """Test / iterator expressions of the branching statements `node`
+        is (transitively) control dependent on in fn's CFG."""
+        try:
+            g = self.cfg(fn)
+            st = g.stmt_of(node)
+            deps = g.control_deps(st)
+        except Exception:
+            return []
+        out = []
+        for b in deps:
+            out.append(b.iter if isinstance(b, (ast.For, ast.AsyncFor))
+                       else b.test)
         return out
 
     def return_control(self, fn, bind=None, _depth=0):
@@ -645,14 +735,48 @@ class Facts:
         callee = self.flow.resolve_call(call, fn)
         if callee is None:
             return None
+        e = self._predicate_expr(callee)
+        if e is not None:
+            b = self.flow._bind_args(call, callee, fn, bind, 0, set())
+            return e, callee, b
+        return None
+
+    def _predicate_expr(self, callee):
+        """The single boolean expression a predicate function computes: its
+        `return <expr>`, with leading `if T: return True` / `if T: return
+        False` statements folded in as `T or ...` / `not T and ...` (the
+        early-return spelling of the same expression)."""
+        memo = self.__dict__.setdefault('_pe_memo', {})
+        if callee.fq in memo:
+            return memo[callee.fq]
         body = [st for st in callee.node.body
                 if not (isinstance(st, ast.Expr) and isinstance(
                     st.value, ast.Constant))]
-        if len(body) == 1 and isinstance(body[0], ast.Return) and \
-                body[0].value is not None:
-            b = self.flow._bind_args(call, callee, fn, bind, 0, set())
-            return body[0].value, callee, b
-        return None
+        expr = None
+        if body and isinstance(body[-1], ast.Return) and \
+                body[-1].value is not None:
+            expr = body[-1].value
+            for st in reversed(body[:-1]):
+                if isinstance(st, ast.Assign) and all(
+                        isinstance(x, ast.Name) for t in st.targets
+                        for x in (t.elts if isinstance(t, ast.Tuple)
+                                  else [t])):
+                    continue             # a named temporary
+                ok = isinstance(st, ast.If) and not st.orelse and len(
+                    st.body) == 1 and isinstance(st.body[0], ast.Return) \
+                    and isinstance(st.body[0].value, ast.Constant) and \
+                    isinstance(st.body[0].value.value, bool)
+                if not ok:
+                    expr = None
+                    break
+                if st.body[0].value.value:
+                    new = ast.BoolOp(op=ast.Or(), values=[st.test, expr])
+                else:
+                    new = ast.BoolOp(op=ast.And(), values=[
+                        ast.UnaryOp(op=ast.Not(), operand=st.test), expr])
+                expr = ast.copy_location(new, st)
+        memo[callee.fq] = expr
+        return expr
 
     def _known_compares(self, t, pos, out, fn=None, bind=None, _d=0):
         """Comparisons whose truth value is known when test t has truth
@@ -732,6 +856,11 @@ class Facts:
                     out.append((t, pos, f_, b_))
             else:
                 out.append((t, pos, f_, b_))
+                if isinstance(t, ast.Call) and d < 2:
+                    # a repository predicate: also what its body tests
+                    pb = self._predicate_body(t, f_, b_)
+                    if pb is not None:
+                        leaves(pb[0], pos, pb[1], pb[2], d + 1)
         for t, pos in self.guards_pol(node, fn):
             leaves(t, pos, fn, bind)
         for t, pos, f_, b_ in self.checker_guards(node, fn, bind):
@@ -780,6 +909,7 @@ class Facts:
         """(target atoms, value atoms, node) of every assignment in fn whose
         target is an attribute or subscript (a store into an object)."""
         out = []
+        bind0 = bind
         for n in walk_no_nested(fn.node):
             tv = []
             if isinstance(n, ast.Assign):
@@ -789,8 +919,10 @@ class Facts:
                 tv = [(n.target, n.value)]
             for t, v in tv:
                 if isinstance(t, (ast.Attribute, ast.Subscript)):
-                    out.append((self.flow.atoms(t, fn, bind),
-                                self.flow.atoms(v, fn, bind), n))
+                    for bind in self.spec_binds(n, fn, bind0):
+                        out.append((self.flow.atoms(t, fn, bind),
+                                    self.flow.atoms(v, fn, bind), n))
+            bind = bind0
             if isinstance(n, ast.Call) and isinstance(n.func, ast.Name) \
                     and n.func.id == 'setattr' and len(n.args) == 3:
                 names = self.flow.const_keys(n.args[1], fn, bind)
